@@ -33,6 +33,7 @@ var execPkgPrefixes = []string{
 	RepoModule,
 	"github.com/google/fhir/go/proto/",
 	"golang.org/x/exp/constraints",
+	"github.com/antlr4-go/antlr/v4",
 	"golang.org/x/exp/slices",
 	"github.com/shopspring/decimal",
 }
@@ -42,6 +43,7 @@ var bodyPkgs = map[string]bool{
 	"strings": true, "strconv": true, "time": true, "unicode/utf8": true, "unicode": true, "errors": true, "math": true,
 	"github.com/google/fhir/go/proto/google/fhir/proto/r4/core/datatypes_go_proto": true,
 	"github.com/shopspring/decimal": true,
+	"github.com/antlr4-go/antlr/v4": true,
 	"net/url": true, "path": true, "encoding/base64": true, "slices": true, "unicode/utf16": true,
 	"sort": true, "math/bits": true, "sync/atomic": true, "cmp": true,
 }
